@@ -149,7 +149,12 @@ where
     pub fn new(target: D, proposal: Q, initial_states: Vec<Vec<S>>) -> Self {
         let chains = initial_states
             .into_iter()
-            .map(|s| MHMarkovChain::new(target.clone(), proposal.clone(), s))
+            .map(|s| {
+                // A plain clone would carry the same generator state into every chain, so all
+                // chains would receive identical proposal noise: give each its own stream.
+                let chain_proposal = proposal.clone().set_seed(rand::rng().random::<u64>());
+                MHMarkovChain::new(target.clone(), chain_proposal, s)
+            })
             .collect();
         Self {
             target,
@@ -187,7 +192,13 @@ where
     pub fn seed(mut self, seed: u64) -> Self {
         for (i, chain) in self.chains.iter_mut().enumerate() {
             let chain_seed = seed.wrapping_add(1).wrapping_add(i as u64);
-            chain.rng = SmallRng::seed_from_u64(chain_seed)
+            chain.rng = SmallRng::seed_from_u64(chain_seed);
+            // The proposal stream is seeded from a window disjoint from the acceptance seeds
+            // (offset 2^63), so no chain's acceptance draws replicate any chain's proposal noise.
+            chain.proposal = chain
+                .proposal
+                .clone()
+                .set_seed(chain_seed.wrapping_add(1 << 63));
         }
         self
     }
